@@ -83,24 +83,23 @@ theorem take_header (img : FruImage) : (encodeFru img).take 8 = img.header := by
 /-- what `parseArea_encode` needs to know about the fixed bytes of an area kind -/
 structure AreaFits (kind : AreaKind) (a : InfoArea) (b2 minutes : Nat) : Prop where
   nfields : a.fields.length = kind.nFields
-  b2 : ∀ rest, (encodeArea a ++ rest)[2]? = some b2
-  fixed : ∀ rest, areaFixed kind (encodeArea a ++ rest) = some (2 + a.pre.length, minutes)
+  b2 : ∀ x tail, (1 :: x :: (a.pre ++ tail))[2]? = some b2
+  fixed : ∀ x tail, areaFixed kind (1 :: x :: (a.pre ++ tail)) = some (2 + a.pre.length, minutes)
 
 theorem chassis_fits (c : Chassis) : AreaFits .chassis c.toArea c.ctype 0 := by
-  refine ⟨rfl, fun rest => ?_, fun rest => ?_⟩
-  · rw [encodeArea_shape]; rfl
+  refine ⟨rfl, fun x tail => ?_, fun x tail => ?_⟩
+  · rfl
   · simp [areaFixed, Chassis.toArea]
 
 theorem product_fits (p : Product) : AreaFits .product p.toArea p.lang 0 := by
-  refine ⟨rfl, fun rest => ?_, fun rest => ?_⟩
-  · rw [encodeArea_shape]; rfl
+  refine ⟨rfl, fun x tail => ?_, fun x tail => ?_⟩
+  · rfl
   · simp [areaFixed, Product.toArea]
 
 theorem board_fits (b : Board) (hm : b.minutes < 256 ^ 3) : AreaFits .board b.toArea b.lang b.minutes := by
-  refine ⟨rfl, fun rest => ?_, fun rest => ?_⟩
-  · rw [encodeArea_shape]; rfl
-  · rw [encodeArea_shape]
-    simp [areaFixed, Board.toArea, leBytes]
+  refine ⟨rfl, fun x tail => ?_, fun x tail => ?_⟩
+  · rfl
+  · simp [areaFixed, Board.toArea, leBytes]
     omega
 
 theorem slotStep_area {α : Type} (v : Variant) (k : InputKind) (kind : AreaKind)
@@ -121,8 +120,7 @@ theorem slotStep_area {α : Type} (v : Variant) (k : InputKind) (kind : AreaKind
     have hok' := hok a rfl
     simp only [InfoArea.okFor, Bool.and_eq_true, List.all_eq_true] at hok'
     obtain ⟨f1, f2, f3⟩ := hfit a rfl
-    exact parseArea_encode v k kind (toArea a) post (b2 a) (minutes a) (hwf a rfl) hok'.1 hok'.2 f1
-      (f2 post) (f3 post)
+    exact parseArea_encode v k kind (toArea a) post (b2 a) (minutes a) (hwf a rfl) hok'.1 hok'.2 f1 f2 f3
 
 /-! ### the whole image -/
 
@@ -133,7 +131,8 @@ def parseFruBody (v : Variant) (k : InputKind) (bs : List Nat) : Outcome FruView
   (slotStep h.boardOff bs (parseArea v k .board)).bind fun b =>
   (slotStep h.productOff bs (parseArea v k .product)).bind fun p =>
   (slotStep h.multiOff bs (parseMulti v)).bind fun m =>
-  .ok ⟨some h, c, b, p, m⟩
+  if !v.overlapLax && layoutClash h c b p m then .decodingError
+  else .ok ⟨some h, c, b, p, m⟩
 
 theorem parseFru_ne_nil (v : Variant) (k : InputKind) (bs : List Nat) (h : bs ≠ []) :
     parseFru v k bs = parseFruBody v k bs := by
@@ -157,6 +156,120 @@ theorem wf_parts (img : FruImage) (h : img.wf = true) :
   · intro c e; rw [e] at hc; simp [optAll] at hc; exact hc.2
   · intro b e; rw [e] at hb; simp [optAll] at hb; exact ⟨hb.2, hb.1.2⟩
   · intro p e; rw [e] at hp; simp [optAll] at hp; exact hp.2
+
+/-! ### the layout check -/
+
+theorem layoutClash_eq_false (h : HeaderView) (c b p : Slot AreaView) (m : Slot (List RecView)) :
+    layoutClash h c b p m = false ↔
+      ∀ i ∈ [1, 2, 3, 4, 5], ∀ j ∈ [1, 2, 3, 4, 5], i ≠ j → hdrStart h i ≠ 0 → hdrStart h j ≠ 0 →
+        hdrStart h i ≤ hdrStart h j → hdrStart h i + slotLens c b p m i ≤ hdrStart h j := by
+  constructor
+  · intro hf i hi j hj hij hsi hsj hle
+    apply Nat.le_of_not_lt
+    intro hlt
+    have : layoutClash h c b p m = true := by
+      simp only [layoutClash, List.any_eq_true]
+      exact ⟨i, hi, j, hj, by simp [hij, hsi, hsj, hle, hlt]⟩
+    rw [hf] at this; cases this
+  · intro H
+    cases hc : layoutClash h c b p m with
+    | false => rfl
+    | true =>
+      simp only [layoutClash, List.any_eq_true, Bool.and_eq_true, bne_iff_ne, ne_eq, decide_eq_true_eq] at hc
+      obtain ⟨i, hi, j, hj, ⟨⟨⟨hij, hsi⟩, hsj⟩, hle⟩, hlt⟩ := hc
+      have := H i hi j hj hij hsi hsj hle
+      omega
+
+theorem viewRecords_len (rs : List Record) :
+    ((viewRecords rs).map fun r => r.length + 5).sum = (encodeRecords rs).length := by
+  induction rs with
+  | nil => rfl
+  | cons r rs ih =>
+    cases rs with
+    | nil => simp [viewRecords, encodeRecords, viewRecord_length, encodeRecord_length]
+    | cons r' rs' =>
+      simp only [viewRecords, encodeRecords, List.map_cons, List.sum_cons, List.length_append,
+        viewRecord_length, encodeRecord_length] at ih ⊢
+      omega
+
+/-- offsets and lengths of the parts of an encoded image: an absent part has offset 0 and no bytes, a
+present one starts where the parts before it end and is not empty -/
+theorem off_facts (img : FruImage) :
+    (img.iuOff = 0 ∧ img.parts.iu.length = 0 ∨ img.iuOff = 8 ∧ 0 < img.parts.iu.length) ∧
+    (img.chOff = 0 ∧ img.parts.ch.length = 0 ∨
+      img.chOff = 8 + img.parts.iu.length ∧ 0 < img.parts.ch.length) ∧
+    (img.bdOff = 0 ∧ img.parts.bd.length = 0 ∨
+      img.bdOff = 8 + img.parts.iu.length + img.parts.ch.length ∧ 0 < img.parts.bd.length) ∧
+    (img.prOff = 0 ∧ img.parts.pr.length = 0 ∨
+      img.prOff = 8 + img.parts.iu.length + img.parts.ch.length + img.parts.bd.length ∧
+        0 < img.parts.pr.length) ∧
+    (img.mrOff = 0 ∧ img.parts.mr.length = 0 ∨
+      img.mrOff = 8 + img.parts.iu.length + img.parts.ch.length + img.parts.bd.length + img.parts.pr.length ∧
+        0 < img.parts.mr.length) := by
+  refine ⟨?_, ?_, ?_, ?_, ?_⟩
+  · cases hi : img.internal with
+    | none => left; simp [FruImage.iuOff, FruImage.parts, offOf, optBytes, hi]
+    | some d => right; simp [FruImage.iuOff, FruImage.parts, offOf, optBytes, hi, encodeInternal]
+  · cases hi : img.chassis with
+    | none => left; simp [FruImage.chOff, FruImage.parts, offOf, optBytes, hi]
+    | some d =>
+      right
+      have := d.toArea.total_pos
+      simp [FruImage.chOff, FruImage.parts, offOf, optBytes, hi, encodeArea_length]; omega
+  · cases hi : img.board with
+    | none => left; simp [FruImage.bdOff, FruImage.parts, offOf, optBytes, hi]
+    | some d =>
+      right
+      have := d.toArea.total_pos
+      simp [FruImage.bdOff, FruImage.parts, offOf, optBytes, hi, encodeArea_length]; omega
+  · cases hi : img.product with
+    | none => left; simp [FruImage.prOff, FruImage.parts, offOf, optBytes, hi]
+    | some d =>
+      right
+      have := d.toArea.total_pos
+      simp [FruImage.prOff, FruImage.parts, offOf, optBytes, hi, encodeArea_length]; omega
+  · cases hi : img.records with
+    | nil => left; simp [FruImage.mrOff, FruImage.parts, offOf, hi, encodeRecords]
+    | cons r rs =>
+      right
+      have := encodeRecords_length_ge (r :: rs)
+      simp only [List.length_cons] at this
+      simp [FruImage.mrOff, FruImage.parts, offOf, hi]; omega
+
+theorem areaLen_optSlot {α : Type} (toArea : α → InfoArea) (b2 minutes : α → Nat) (o : Option α) :
+    areaLen (optSlot (fun a => viewArea (toArea a) (b2 a) (minutes a)) o) =
+      (optBytes (fun a => encodeArea (toArea a)) o).length := by
+  cases o with
+  | none => rfl
+  | some a => simp [optSlot, optBytes, areaLen, viewArea, encodeArea_length]
+
+/-- the areas of an encoded image do not overlap: the layout check of the repaired reader passes -/
+theorem layout_encode (img : FruImage) :
+    layoutClash ⟨1, img.iuOff, img.chOff, img.bdOff, img.prOff, img.mrOff⟩
+      (optSlot (fun c => viewArea c.toArea c.ctype 0) img.chassis)
+      (optSlot (fun b => viewArea b.toArea b.lang b.minutes) img.board)
+      (optSlot (fun p => viewArea p.toArea p.lang 0) img.product)
+      (if img.records.isEmpty then .absent else .parsed (viewRecords img.records)) = false := by
+  rw [layoutClash_eq_false]
+  obtain ⟨f1, f2, f3, f4, f5⟩ := off_facts img
+  have l2 := areaLen_optSlot Chassis.toArea Chassis.ctype (fun _ => 0) img.chassis
+  have l3 := areaLen_optSlot Board.toArea Board.lang Board.minutes img.board
+  have l4 := areaLen_optSlot Product.toArea Product.lang (fun _ => 0) img.product
+  have l5 : multiLenOf (if img.records.isEmpty then .absent else .parsed (viewRecords img.records)) =
+      img.parts.mr.length := by
+    cases hr : img.records with
+    | nil => simp [multiLenOf, FruImage.parts, hr, encodeRecords]
+    | cons r rs =>
+      simp only [List.isEmpty_cons, Bool.false_eq_true, if_false, multiLenOf, FruImage.parts, hr]
+      exact viewRecords_len (r :: rs)
+  have e2 : img.parts.ch = optBytes (fun c => encodeArea c.toArea) img.chassis := rfl
+  have e3 : img.parts.bd = optBytes (fun b => encodeArea b.toArea) img.board := rfl
+  have e4 : img.parts.pr = optBytes (fun p => encodeArea p.toArea) img.product := rfl
+  rw [← e2] at l2; rw [← e3] at l3; rw [← e4] at l4
+  intro i hi j hj hij hsi hsj hle
+  simp only [List.mem_cons, List.mem_nil_iff, or_false] at hi hj
+  rcases hi with rfl | rfl | rfl | rfl | rfl <;> rcases hj with rfl | rfl | rfl | rfl | rfl <;>
+    simp only [hdrStart, slotLens, l2, l3, l4, l5] at hsi hsj hle ⊢ <;> omega
 
 theorem parse_encode_gen (v : Variant) (k : InputKind) (img : FruImage)
     (hwf : img.wf = true) (hok : img.okFor v k = true) :
@@ -213,6 +326,7 @@ theorem parse_encode_gen (v : Variant) (k : InputKind) (img : FruImage)
       simp only [slotStep, if_neg hpos, hne]
       rw [hbs, hoff, List.drop_left' rfl, parseMulti_encode v _ _ he wr okr]
       rfl
-  simp only [sc, sb, sp, sm, Outcome.bind_ok, view]
+  simp only [sc, sb, sp, sm, Outcome.bind_ok, view, layout_encode img]
+  simp
 
 end PyIpmi.Fru
